@@ -123,6 +123,16 @@ func runBroken(cfg hx.Config, r *hx.Rand, meta *hx.Meta) error {
 	}
 	type bc struct{ kind, src string }
 	cases := []bc{{"valid", validPkg}, {"truncated", validPkg[:len(validPkg)/2]}, {"empty", ""}, {"nopackage", "func f() {}\n"}}
+	// a field of an undefined type inside a named type (the named type prints as its name, the call looks
+	// well typed): the call cannot be generated; alone, and next to a call that can (C09-fix-invalid-type-in-named-type)
+	for _, c := range [][2]string{
+		{"deriveDeepCopy(a, b)", "a, b *T"}, {"_ = deriveEqual(a, b)", "a, b *T"}, {"_ = deriveCompare(a, b)", "a, b *T"},
+		{"_ = deriveHash(a)", "a *T"}, {"_ = deriveGoString(a)", "a *T"}, {"_ = deriveClone(a)", "a *T"},
+		{"_ = deriveEqual(a, b)", "a, b []map[string]*T"}, {"_ = deriveHash(a)", "a U"},
+	} {
+		src := "package p\n\ntype T struct {\n\tX S\n\tY []S\n}\n\ntype U struct{ M map[string]*T }\n\nfunc use(" + c[1] + ") {\n\t" + c[0] + "\n}\n"
+		cases = append(cases, bc{"undeftype", src}, bc{"undeftype-plus", src + "\nfunc mn(a, b int) int { return deriveMin(a, b) }\n"})
+	}
 	for i := 0; i < n; i++ {
 		k, s := mutate(r, validPkg)
 		if r.Intn(4) == 0 { // two mutations
